@@ -2,7 +2,7 @@
 import ast
 
 from ..model import dotted, src, calls_in, kw, AnalysisError
-from ..common import fpaths, peel, actual, mkterm, mkbool, guard_cases, same_expr, const_str, status_key, self_rename
+from ..common import fpaths, peel, actual, mkterm, mkbool, guard_cases, same_expr, const_str, status_key, self_rename, isinstance_state
 from ..terms import Term, exp2, NotATerm, witness, equiv
 from ..paths import enum_paths, walk_path
 from ..scaletype import Typer, Mismatch, Unknown
@@ -28,7 +28,7 @@ def rescaling_siblings(ck, rule, rule_dest):
     for pf in fpaths(prog, f):
         if pf.end == "raise":
             continue
-        isf = [g for g in pf.guards if g[2] is not None and isinstance(g[2], ast.Call) and dotted(g[2].func) == "isinstance" and dotted(g[2].args[0]) == sp]
+        isf_state = isinstance_state(pf.guards, sp)
         svs = [ce for ce in pf.calls if prog.resolve_call(f, ce.raw) == fun.qualname]
         if len(svs) != 1:
             ck.bad(rule, f, "equal() stores exactly once through set_val", "%d set_val calls on a path" % len(svs), f.node)
@@ -39,7 +39,7 @@ def rescaling_siblings(ck, rule, rule_dest):
         idx = kw(ce.raw, "index")
         if dotted(idx) != "index":
             ck.bad(rule, f, "equal() forwards index", "index=%s" % (src(idx) if idx is not None else None), ce.stmt)
-        if isf and isf[-1][1]:
+        if isf_state is True:
             arg = ce.call.args[0] if ce.call.args else kw(ce.call, "val")
             raw = kw(ce.call, "raw", 1)
             _check_rescale(ck, rule, f, arg, sp, "self.n_frac", raw, ce.stmt, "equal()")
